@@ -31,3 +31,18 @@ META["C13"] = dict(
     text="Theorems C13_identity, C13_telescope_partial, C13_bounded_partial, C13_nonneg_partial, C13_checker_sound: for jitter below 100% and rates in [0,R], in every admissible run the difference between requested and emitted totals is the carried balance and stays within (jn*R+jd)/(jd-jn) at every prefix, outputs are non-negative, zero jitter is the identity. Admissibility (each value within jitter% + 1 of rate+balance; exact carry) of what the binary64 code emits is checked per run by jit_ok, not proved (float rounding).",
     note="Trusted: Coq kernel (+ axioms carried by Flocq definitions for theorems mentioning the float model); math.Cos and math/rand are oracles taken from the run; extraction + driver; harness. Partial: link between float layer and exact layer is checked, not proved.",
 )
+
+META["C01"] = dict(
+    design_ref="DESIGN.md section 5, C01",
+    technique="Coq proof of an inductive invariant over a small-step thread model (one step per atomic/lock operation) for every schedule, program and snapshot cadence; refutation witness for the pinned code; stress-based oracle correspondence on the real ActiveScenario/Result with the extracted predicate, plus sequential differential of the primitives",
+    text="Theorems C01_counts_exact and C01_no_loss_mid_run: for every worker count, outcome sequence per worker, number of periodic snapshotters and snapshots, metrics on/off and every interleaving of the atomic steps, the totals stored by the final collector and the exported sample counts equal the program's success/fail/dropped counts, and in every reachable state lifetime + running + drained-not-yet-merged = count operations executed. "
+         "Refuted/C01_pinned.v proves the pinned collect loses a record. The model is tied to the code by stress runs of the real recording and snapshot paths judged by the extracted predicate, whole runs with forced snapshots, and an exact sequential differential of Stats.",
+    note="Trusted: Coq kernel; the step granularity (sequentially consistent atomics, Result.mu as a lock, Observe as one step); extraction + driver; harness. Real schedules are sampled by stress, the theorem quantifies over the model's schedules.",
+)
+
+META["C17"] = dict(
+    design_ref="DESIGN.md section 5, C17",
+    technique="Coq proof by induction over operation sequences that the accumulator arithmetic (Add/Update/Reset with 0 as 'no minimum') refines a reference computed from the history; exact differential correspondence of progress.Stats on generated op sequences; measured-interval half proved on the iteration life-cycle model (C06 file) and observed with sleeping bodies",
+    text="Theorems C17_aggregate, C17_monotone_counts, C17_min_mean_max: for every sequence of positive durations per outcome with snapshots/totals anywhere, each snapshot's lifetime figures are (integer mean, count, min, max) of all durations recorded so far and its period figures those since the previous snapshot; counts never decrease; min <= mean <= max. The position of the clock reads around the body (C17_measured_interval) is proved on the life-cycle model of C06.",
+    note="Trusted: Coq kernel; extraction + driver; harness. Sequential use only (the concurrent counting part is C01). Wall-clock magnitudes are the runtime's nanotime, observed one-sidedly.",
+)
